@@ -5,6 +5,8 @@ CSETS = ["#", ";", "#;"]
 BL = " \t"
 
 PRINT = [chr(c) for c in range(0x21, 0x7F)]
+# bytes with the top bit set (latin-1 code points in the plan = single bytes in the file): ordinary text for the grammar
+HIGH = [chr(c) for c in (0x80, 0x85, 0xA0, 0xC3, 0xA9, 0xE9, 0xFE, 0xFF)]
 
 
 def dclass(D):
@@ -21,8 +23,8 @@ def blanks(rng, lo=0, hi=2, only=None):
     return "".join(rng.pick(src) for _ in range(n))
 
 
-def token(rng, forbid, lo=1, hi=8, first_forbid="", inner_blank=False):
-    alpha = [c for c in PRINT if c not in forbid]
+def token(rng, forbid, lo=1, hi=8, first_forbid="", inner_blank=False, extra=()):
+    alpha = [c for c in PRINT if c not in forbid] + list(extra) * 4
     n = rng.randint(lo, hi)
     out = []
     for i in range(n):
@@ -42,7 +44,7 @@ def token(rng, forbid, lo=1, hi=8, first_forbid="", inner_blank=False):
     return s
 
 
-WORDS = ["Yes Please", "TRUE", "No", "oN", "yes", "0", "1", "0x1F", "017", "-42", "3.5e3", "NaN", "hello", "a b  c", "Off", "fAlSe"]
+WORDS = ["Yes Please", "TRUE", "No", "oN", "yes", "0", "1", "0x1F", "017", "-42", "3.5e3", "NaN", "hello", "a b  c", "Off", "fAlSe", "99999999999999999999", "-99999999999999999999", "1e999", "4294967296", "1e-999"]
 
 
 def gen_conventional(rng, D, C, nlines, plain=False, rich=False, sections=True, max_key=8, cont_trail=True, inner_quotes=True):
@@ -51,6 +53,7 @@ def gen_conventional(rng, D, C, nlines, plain=False, rich=False, sections=True, 
     list of [section|None, key] in file order (keys are unique per section)."""
     cls = dclass(D)
     lines, kinds = [], []
+    ex = HIGH if rng.chance(0.2) else ()      # this file also uses 8-bit bytes in keys, values, section names and comments
     prev = None
     used = set()
     pairs = []
@@ -62,7 +65,7 @@ def gen_conventional(rng, D, C, nlines, plain=False, rich=False, sections=True, 
 
     def gen_key():
         for _ in range(50):
-            k = token(rng, BL + D + C + '"', 1, max_key, first_forbid="[")
+            k = token(rng, BL + D + C + '"', 1, max_key, first_forbid="[", extra=ex)
             if k != "_none_" and (cursec, k) not in used:
                 used.add((cursec, k))
                 return k
@@ -87,7 +90,7 @@ def gen_conventional(rng, D, C, nlines, plain=False, rich=False, sections=True, 
                 return w
         inner = cls in ("BLANK", "NONBLANK", "MIXED")
         for _ in range(30):
-            v = token(rng, BL + C + '"', 1, 10, first_forbid=D, inner_blank=inner)
+            v = token(rng, BL + C + '"', 1, 10, first_forbid=D, inner_blank=inner, extra=ex)
             if v and v[0] not in BL and v[-1] not in BL and v != "_none_":
                 if inner_quotes and len(v) >= 2 and rng.chance(0.15):
                     # a double quote inside (not at the start of) plain text is ordinary text: 5" floppy
@@ -99,7 +102,7 @@ def gen_conventional(rng, D, C, nlines, plain=False, rich=False, sections=True, 
         return "v"
 
     def gen_trail():
-        return blanks(rng, 0, 2) + rng.pick(C) + token(rng, C + '"', 0, 8, inner_blank=True) if True else ""
+        return blanks(rng, 0, 2) + rng.pick(C) + token(rng, C + '"', 0, 8, inner_blank=True, extra=ex) if True else ""
 
     n = 0
     while n < nlines:
@@ -116,7 +119,7 @@ def gen_conventional(rng, D, C, nlines, plain=False, rich=False, sections=True, 
             prev = "blank"
         elif r < 0.25 and not plain:
             ind = blanks(rng, 0, 2) if blank_ok() else ""
-            text = token(rng, "", 0, 12, inner_blank=True) if rng.chance(0.7) else token(rng, C + "[]=\"", 0, 12, inner_blank=True)
+            text = token(rng, "", 0, 12, inner_blank=True, extra=ex) if rng.chance(0.7) else token(rng, C + "[]=\"", 0, 12, inner_blank=True, extra=ex)
             lines.append(ind + rng.pick(C) + text)
             kinds.append("comment")
             # a comment line does not change what the next indented line is taken for
@@ -124,7 +127,7 @@ def gen_conventional(rng, D, C, nlines, plain=False, rich=False, sections=True, 
         elif r < 0.38 and sections:
             s = None
             for _ in range(20):
-                s = token(rng, "]" + C, 1, 8, inner_blank=True)
+                s = token(rng, "]" + C, 1, 8, inner_blank=True, extra=ex)
                 if s != "_none_" and not (s.startswith("[")) and s.strip(BL) == s:
                     break
             else:
@@ -136,7 +139,7 @@ def gen_conventional(rng, D, C, nlines, plain=False, rich=False, sections=True, 
             kinds.append("header")
             prev = "header"
         elif r < 0.46 and cls == "NONBLANK" and prev in ("entry_plain", "cont") and not plain:
-            ct = token(rng, D + C + '"', 1, 8, first_forbid="[" + BL, inner_blank=True)
+            ct = token(rng, D + C + '"', 1, 8, first_forbid="[" + BL, inner_blank=True, extra=ex)
             ct = ct.rstrip(BL) or "c"
             line = blanks(rng, 1, 3) + ct
             if cont_trail and rng.chance(0.2):
@@ -148,7 +151,7 @@ def gen_conventional(rng, D, C, nlines, plain=False, rich=False, sections=True, 
             if cls == "NONE":
                 kt = None
                 for _ in range(30):
-                    kt = token(rng, C, 1, 10, first_forbid="[" + BL, inner_blank=True).rstrip(BL)
+                    kt = token(rng, C, 1, 10, first_forbid="[" + BL, inner_blank=True, extra=ex).rstrip(BL)
                     if kt and kt != "_none_" and (cursec, kt) not in used:
                         break
                 used.add((cursec, kt))
@@ -166,7 +169,7 @@ def gen_conventional(rng, D, C, nlines, plain=False, rich=False, sections=True, 
                     line += gen_plain_value()
                     pk = "entry_plain"
                 elif vk < 0.8:
-                    line += '"' + blanks(rng, 0, 1 if rng.chance(0.3) else 0) + token(rng, '"', 0, 10, inner_blank=True) + blanks(rng, 0, 2 if rng.chance(0.3) else 0) + '"'
+                    line += '"' + blanks(rng, 0, 1 if rng.chance(0.3) else 0) + token(rng, '"', 0, 10, inner_blank=True, extra=ex) + blanks(rng, 0, 2 if rng.chance(0.3) else 0) + '"'
                 else:
                     pass   # missing value
                 if not plain and rng.chance(0.2) and cls != "NONE":
